@@ -144,6 +144,12 @@ def final(h: Any, e: Any, state: dict[str, Any]) -> None:
     from vmc.engine import task_outcome
 
     out = task_outcome(state["hd"]._result_task)
+    # --- liveness: nothing is enabled any more, yet a wait's timeout is still scheduled - it can never fire
+    if e.stuck and h.runners and out[0] == "pending":
+        pend = [t for _, _, t in h.runners[-1].scheduled_wakeups if type(t).__name__ == "TickWaiterTimeout"]
+        if pend:
+            h.violate("wait_timeout_never_delivered", {**wit0, "after_busy_tick": bool(getattr(h, "busy_until", 0.0))},
+                      f"the run is quiescent for ever with waiter timeouts {[t.waiter_id for t in pend]} still scheduled; trace {h.trace[-8:]}")
     if out[0] == "exception":
         h.violate("run_fails_although_no_step_raises", {**wit0, "got": type(out[1]).__name__},
                   f"the run ended with {out[1]!r}; ticks {[type(t).__name__ for t in h.ticks][-6:]}")
@@ -202,11 +208,11 @@ def specs(tier: str) -> list[Spec]:
 
     def add(name: str, n: int, w: int, timeout: float | None, req: bool, events: list[tuple[str, str]],
             resume: bool = False, two: bool = False, implicit: bool = False, max_dev: int | None = None,
-            pre: bool = False) -> None:
+            pre: bool = False, busy: int = 0) -> None:
         sp.append(Spec(name, {"n": n, "w": w, "timeout": timeout, "requirements": req, "events": events, "two": two,
-                              **({"pre_gate": True} if pre else {})},
+                              **({"pre_gate": True} if pre else {}), **({"busy_ticks": busy} if busy else {})},
                        (lambda: wf_waiters(n, w, timeout, req, two, implicit, pre)), scripts=script(events), resume=resume,
-                       max_dev=max_dev))
+                       max_dev=max_dev, busy_ticks=busy))
 
     d = 3 if q else 7
     add("match_dup", 1, 1, None, True, [("Resp", "0"), ("Resp", "0")], max_dev=None)
@@ -230,6 +236,10 @@ def specs(tier: str) -> list[Spec]:
     # an unrelated event class that has the same module and __name__ as the awaited one (nested / factory-made classes)
     add("lookalike_type", 1, 1, None, True, [("RespTwin", "0"), ("Resp", "0")], max_dev=None)
     add("lookalike_type_noreq", 1, 1, None, False, [("RespTwin", "x"), ("Resp", "y")], max_dev=None)
+    # one tick keeps the loop busy until after the pending waiter timeout: the wait must still time out / the late answer is too late
+    add("timeout_nonmatch/busy_tick", 1, 1, 5.0, True, [("Resp", "zz")], max_dev=None, busy=1)
+    add("timeout_match/busy_tick", 1, 1, 5.0, True, [("Resp", "0")], max_dev=d + 1, busy=1)
+    add("timeout_two_inputs/busy_tick", 2, 2, 5.0, True, [("Resp", "0")], max_dev=d, busy=1)
     # serialize / resume at every quiescent point
     add("resume_match", 1, 1, None, True, [("Resp", "0")], resume=True, max_dev=None)
     add("resume_nonmatch_match", 1, 1, None, True, [("Resp", "zz"), ("Resp", "0")], resume=True, max_dev=d)
